@@ -770,6 +770,25 @@ impl Agg {
 fn main_check(ctx: &Ctx) -> Outcome {
     std::panic::set_hook(Box::new(|_| {}));
     let mut out = Outcome::default();
+    // the same oracles against a non-default feature set of the crate (the Display paths of all 4096 effect sets x 5 colours in the three slots, in a build of anstyle without `std`)
+    match vchecks::parsecfg::build_and_run_feat("style") {
+        Ok(v) => {
+            for f in v["findings"].as_array().cloned().unwrap_or_default().into_iter().take(12) {
+                out.findings.push(Finding {
+                    system: "anstyle without its `std` feature".into(),
+                    clause: "feature-configuration".into(),
+                    case: vec![f["case"].as_str().unwrap_or("").to_string()],
+                    message: f["message"].as_str().unwrap_or("").chars().take(600).collect(),
+                    replay: serde_json::json!({"kind":"feature-configuration","feature":"style"}),
+                });
+            }
+            out.push_part(serde_json::json!({"configuration":"anstyle without its `std` feature","cases":v["cases"]}));
+        }
+        Err(m) => {
+            println!("MACHINERY ERROR: {m}");
+            std::process::exit(2);
+        }
+    }
     // the functions under test must not consult the environment: a few representative inputs under a cleared and two
     // hostile settings of the colour-related variables (before any worker thread exists)
     fn env_digest() -> Vec<String> {
@@ -937,6 +956,17 @@ fn main_check(ctx: &Ctx) -> Outcome {
 }
 
 fn replay(v: &Value) -> Result<(), String> {
+    if v["kind"] == "feature-configuration" || v["kind"] == "env" {
+        // re-run the worker / the environment part and report its first finding
+        if v["kind"] == "env" {
+            return Err("environment-dependence findings are replayed by re-running the check".into());
+        }
+        let r = vchecks::parsecfg::build_and_run_feat(v["feature"].as_str().unwrap_or(""))?;
+        return match r["findings"].as_array().and_then(|a| a.first()) {
+            Some(f) => Err(format!("{}: {}", f["case"].as_str().unwrap_or(""), f["message"].as_str().unwrap_or(""))),
+            None => Ok(()),
+        };
+    }
     std::panic::set_hook(Box::new(|_| {}));
     let mut e = 0;
     let full = v["full"].as_bool().unwrap_or(true);
